@@ -125,6 +125,14 @@ class Ctx:
         self.n = 0
         self.loop_name = loop_name
         self.aux = []          # generated auxiliary definitions (while loops)
+        self.mut_params = []   # `&mut` parameters: threaded as state, returned next to the result
+        self.ret_ty = None     # type of the function result (with the state of the `&mut` parameters)
+        self.lp = []           # enclosing `for` loops: {"ret": the loop carries an early-return slot}
+        self.new_state = []    # state the model has no counterpart for (reported as DIFFERS)
+        self.memo_dirty = False
+        self.src = None
+        self.cur_fn = None
+        self.depth = 0
 
     def fresh(self, base):
         self.n += 1
@@ -239,8 +247,19 @@ def ite(c, a, b):
 
 
 # ------------------------------------------------------------------ expressions
+class Differs(Exception):
+    """the whole body was read; the only obstacle is state / parameters the model has no counterpart for"""
+
+    def __init__(self, msg, extra=""):
+        Exception.__init__(self, msg)
+        self.extra = extra
+
+
+CUR_MUT_PARAMS = []      # `&mut` parameters of the function being translated (a call that passes one on assigns it)
+
+
 def strip_ref(e):
-    while e[0] == "un" and e[1] in ("&", "*"):
+    while e[0] == "un" and e[1] in ("&", "&mut", "*"):
         e = e[2]
     return e
 
@@ -372,7 +391,7 @@ def ev(e, env, cx):
             return V("none", opt(None))
         raise Untranslatable("unknown local %r" % nm)
     if k == "un":
-        if e[1] in ("&", "*"):
+        if e[1] in ("&", "&mut", "*"):
             return ev(e[2], env, cx)
         if e[1] == "!":
             a = ev(e[2], env, cx)
@@ -603,6 +622,17 @@ def siblings(sem):
     }
 
 
+def mut_positions(src, name):
+    """positions (after self) of the `&mut` parameters of a sibling, read from the source"""
+    if src is None:
+        return []
+    try:
+        ps, _ = find_fn(src, name, BDD_IMPL)
+    except Untranslatable:
+        return []
+    return [i for i, (_, ty) in enumerate(parse_params_typed(ps)[1:]) if ty.startswith("&mut")]
+
+
 SEM_OF = {"marginal_map_eval": RAT, "marginal_map_h": RAT, "marginal_map": RAT, "eu_ub": EU, "meu_h": EU, "meu": EU,
           "bb_ub": TT, "bb_h": TT, "bb": TT}
 
@@ -616,6 +646,12 @@ def ev_mcall(e, env, cx):
         return r
     # ---- the diagram
     if t == PTR:
+        if name == "bdd_fold_h" and len(args) == 3:
+            # the memoised fold without the clearing wrapper: on a clean memo it computes the tree-level fold
+            if cx.memo_dirty:
+                cx.new_state.append("the scratch memo of `bdd_fold_h` is shared between two folds (not cleared in between)")
+            cx.memo_dirty = True
+            name = "bdd_fold"
         if name == "bdd_fold" and len(args) == 3:
             lo, hi = av(1), av(2)
             if not same_ty(lo.ty, hi.ty) or lo.ty not in (RAT, EU, TT, BOOL, NAT):
@@ -635,7 +671,41 @@ def ev_mcall(e, env, cx):
                 if not same_ty(v.ty, kd):
                     raise Untranslatable("argument of %s has type %r, expected %r" % (name, v.ty, kd))
             la = [r.s if o == "self" else vals[o].s for o in sp["order"]]
+            mpos = mut_positions(cx.src, name)
+            if mpos and name == cx.cur_fn and cx.mut_params:
+                # recursion of a function with `&mut` parameters: the call also delivers their new state
+                call = V(ap(sp["lean"] + "Stateful" + (" B" if sp["generic"] else ""), *la), tup(sp["ret"], *[PM for _ in mpos]))
+                for k2, pos in enumerate(mpos):
+                    a = strip_ref(args[pos])
+                    if a[0] != "var" or a[1] not in env:
+                        raise Untranslatable("`&mut` argument is not a local")
+                    env[a[1]] = proj(call, 1 + k2)
+                return proj(call, 0)
+            for pos in mpos:      # the callee mutates this local; its model takes it by value: the local is dead afterwards
+                a = strip_ref(args[pos])
+                if a[0] == "var" and a[1] in env:
+                    del env[a[1]]
             return V(ap(sp["lean"] + (" B" if sp["generic"] else ""), *la), sp["ret"])
+        if strip_ref(recv) == ("var", "self") and cx.src is not None and cx.depth < 3 and name not in sibs:
+            # a private helper of the same impl: read it in place (parameters bound to the arguments)
+            ps, hbody = find_fn(cx.src, name, BDD_IMPL)
+            hparams = parse_params_typed(ps)
+            if not hparams or hparams[0][0] != "self" or len(hparams) - 1 != len(args):
+                raise Untranslatable("helper ." + name)
+            if any(ty.startswith("&mut") for _, ty in hparams[1:]):
+                raise Untranslatable("helper .%s with a `&mut` parameter" % name)
+            henv = {}
+            for (pn, _), a in zip(hparams[1:], args):
+                henv[pn] = to_bool(ev(a, env, cx))
+            hast = parse_body(hbody)
+            saved = (cx.mut_params, cx.ret_ty, cx.lp)
+            cx.mut_params, cx.ret_ty, cx.lp = [], None, []
+            cx.depth += 1
+            try:
+                return eval_block(hast[1], hast[2], henv, cx, top=True)
+            finally:
+                cx.depth -= 1
+                cx.mut_params, cx.ret_ty, cx.lp = saved
         raise Untranslatable("method .%s of the diagram" % name)
     # ---- weights
     if t == WMC:
@@ -792,7 +862,8 @@ def ev_mcall(e, env, cx):
 
 
 # ------------------------------------------------------------------ match on an Option
-def ev_match(e, env, cx):
+def ev_match(e, env, cx, body_ev=None):
+    body_ev = body_ev or ev
     scrut = ev(e[1], env, cx)
     t = scrut.ty
     if not (isinstance(t, tuple) and t[0] == "opt" and t[1] is not None):
@@ -848,7 +919,7 @@ def ev_match(e, env, cx):
             sub = dict(env)
             sub.update(b)
             g = ev(guard, sub, cx) if guard is not None else None
-            chain.append((g, ev(body, sub, cx)))
+            chain.append((g, body_ev(body, sub, cx)))
             if g is None:
                 closed = True
                 break
@@ -891,10 +962,22 @@ def assigned(node, out):
         assigned(node[2], out)
     elif k == "assign":
         targets_of(node[2], out)
+        assigned(node[3], out)
     elif k == "expr":
         assigned(node[1], out)
-    elif k == "mcall" and node[2] in ("set", "push") and strip_ref(node[1])[0] == "var":
+    elif k == "mcall" and node[2] in ("set", "unset", "push") and strip_ref(node[1])[0] == "var":
         targets_of(node[1], out)
+    elif k in ("mcall", "call"):
+        for a in (node[3] if k == "mcall" else node[2]):
+            if a[0] == "un" and a[1] == "&mut" and strip_ref(a)[0] == "var":
+                targets_of(a, out)
+            elif a[0] == "var" and a[1] in CUR_MUT_PARAMS and a[1] not in out:
+                out.append(a[1])
+    elif k == "let":
+        assigned(node[3], out)
+    elif k == "tuple" or k == "array":
+        for a in node[1]:
+            assigned(a, out)
     elif k == "if":
         assigned(node[2], out)
         assigned(node[3], out)
@@ -944,6 +1027,61 @@ def pat_vars(pat, out):
     return out
 
 
+def jumps(block):
+    """the block ends in `continue` or `return`"""
+    return (block is not None and block[0] == "block" and block[2] is None and bool(block[1])
+            and block[1][-1][0] in ("continue", "return"))
+
+
+def has_return(node):
+    if isinstance(node, tuple):
+        if node and node[0] == "return":
+            return True
+        if node and node[0] == "closure":
+            return False
+        return any(has_return(x) for x in node)
+    if isinstance(node, list):
+        return any(has_return(x) for x in node)
+    return False
+
+
+def finish(v, env, cx):
+    """the value a `return` / the final expression delivers: the result and the state of the `&mut` parameters"""
+    if not cx.mut_params:
+        return v
+    return mk_tuple([to_bool(v)] + [env[p] for p in cx.mut_params])
+
+
+def exec_seq(stmts, env, cx, jump_end=False):
+    """statements of a unit-valued block.  Inside a `for`: `if c { …; continue; }` / `if c { …; return e; }`
+    (no else) make the rest of the sequence the other branch; `return e` fills the loop's early-return slot."""
+    for i, s in enumerate(stmts):
+        last = i == len(stmts) - 1
+        if s[0] == "continue":
+            if not (cx.lp and jump_end and last):
+                raise Untranslatable("continue in this position")
+            return
+        if s[0] == "return":
+            if not (cx.lp and cx.lp[-1]["ret"] and jump_end and last and s[1] is not None and "__done" in env):
+                raise Untranslatable("return in this position")
+            v = finish(ev(s[1], env, cx), env, cx)
+            if not same_ty(v.ty, cx.ret_ty):
+                raise Untranslatable("type of the returned value")
+            env["__done"] = V(ap("some", v.s), opt(cx.ret_ty))
+            return
+        if s[0] == "expr" and s[1][0] == "if" and s[1][3] is None and jumps(s[1][2]) and cx.lp:
+            c = ev(s[1][1], env, cx)
+            e1, e2 = dict(env), dict(env)
+            exec_seq(s[1][2][1], e1, cx, jump_end=True)
+            exec_seq(stmts[i + 1:], e2, cx, jump_end=jump_end)
+            hint = (["__done"] if "__done" in env else []) + assigned(("block", stmts[i:], None), [])
+            merge(c, env, e1, e2, hint)
+            return
+        if s[0] == "let":
+            pass
+        exec_stmt(s, env, cx)
+
+
 def exec_unit(node, env, cx):
     """execute a unit-valued expression (if / block / method call with effect) as a statement"""
     k = node[0]
@@ -954,11 +1092,24 @@ def exec_unit(node, env, cx):
                 for nm in pat_vars(s[1], []):
                     if nm in env:
                         raise Untranslatable("inner block shadows the outer local " + nm)
-            exec_stmt(s, sub, cx)
-        if node[2] is not None:
-            exec_unit(node[2], sub, cx)
+        exec_seq(node[1] + ([("expr", node[2])] if node[2] is not None else []), sub, cx)
         for name in env:
             env[name] = sub[name]
+        return
+    if k == "mcall" and strip_ref(node[1]) == ("var", "self") and node[2] in ("clear_scratch", "clear_scratch_upto") and cx.self_v is not None and cx.self_v.ty == PTR:
+        # the scratch memo is not modelled (tree-level fold): a full clear after a fold is what `bdd_fold` does
+        if node[2] == "clear_scratch" and not node[3]:
+            cx.memo_dirty = False
+        else:
+            cx.new_state.append("the scratch memo of `bdd_fold_h` is cleared only partially (`%s`) between folds" % node[2])
+        return
+    if k == "mcall" and node[2] == "unset" and len(node[3]) == 1 and strip_ref(node[1])[0] == "var":
+        nm = strip_ref(node[1])[1]
+        r = ev(node[1], env, cx)
+        x = ev(node[3][0], env, cx)
+        if r.ty != PM or nm not in env or x.ty != NAT:
+            raise Untranslatable(".unset on %r" % (r.ty,))
+        env[nm] = V(ap("_root_.Optim.PM.mk", ap("List.set", paren(r.s) + ".vals", x.s, "none")), PM)
         return
     if k == "if":
         c = ev(node[1], env, cx)
@@ -1039,12 +1190,17 @@ def exec_stmt(s, env, cx):
     raise Untranslatable("statement kind " + k)
 
 
-def exec_for(s, env, cx):
+def exec_for(s, env, cx, ret=False):
     pat, it, body = s[1], s[2], s[3]
     seq = ev(it, env, cx)
     if not (isinstance(seq.ty, tuple) and seq.ty[0] == "list" and seq.ty[1] is not None):
         raise Untranslatable("for over %r" % (seq.ty,))
     state = [n for n in assigned(body, []) if n in env]
+    if ret:
+        if cx.ret_ty is None:
+            raise Untranslatable("return inside a loop")
+        env["__done"] = V("(none : %s)" % cx.lean_ty(opt(cx.ret_ty)), opt(cx.ret_ty))
+        state = ["__done"] + state
     if not state:
         raise Untranslatable("for loop without effect")
     sname, ename = cx.fresh(state[0] if len(state) == 1 else "st"), cx.fresh(pat[1] if pat[0] == "pvar" else "it")
@@ -1054,8 +1210,14 @@ def exec_for(s, env, cx):
     for i, n in enumerate(state):
         inner[n] = sv if len(state) == 1 else proj(sv, i)
     bind_pattern(pat, V(ename, seq.ty[1]), inner, cx)
-    exec_unit(body, inner, cx)
+    cx.lp.append({"ret": ret})
+    try:
+        exec_unit(body, inner, cx)
+    finally:
+        cx.lp.pop()
     new = mk_tuple([inner[n] for n in state])
+    if ret:      # once the slot is filled the remaining iterations do nothing
+        new = V("match %s with | some _ => %s | none => %s" % ((sv if len(state) == 1 else proj(sv, 0)).s, sname, new.s), st_ty)
     init = mk_tuple([env[n] for n in state])
     res = V(ap("List.foldl", "fun (%s : %s) (%s : %s) => %s" % (sname, cx.lean_ty(st_ty), ename, cx.lean_ty(seq.ty[1]), new.s),
                init.s, seq.s), st_ty)
@@ -1092,24 +1254,52 @@ def exec_while(s, env, cx):
         env[n] = res if len(state) == 1 else proj(res, i)
 
 
-def eval_block(stmts, tail, env, cx):
-    """value of a block; `if c { …; return e; }` makes the rest of the block the else branch"""
+def ev_tail(e, env, cx):
+    """an expression in tail position of the function body: `return` is allowed in its blocks, and what it
+    delivers is `finish`ed (result + state of the `&mut` parameters)"""
+    k = e[0]
+    if k == "block":
+        return eval_block(e[1], e[2], dict(env), cx, top=True)
+    if k == "if" and e[3] is not None:
+        return ite(ev(e[1], env, cx), ev_tail(e[2], env, cx), ev_tail(e[3], env, cx))
+    if k == "match":
+        return ev_match(e, env, cx, body_ev=ev_tail)
+    if k == "iflet" and e[4] is not None:
+        return ev_match(("match", e[2], [(e[1], None, e[3]), (("pwild",), None, e[4])]), env, cx, body_ev=ev_tail)
+    return finish(ev(e, env, cx), env, cx)
+
+
+def eval_block(stmts, tail, env, cx, top=False):
+    """value of a block; `if c { …; return e; }` makes the rest of the block the else branch (`top`: the block is
+    in tail position of the function body, the only place where `return` is read)"""
     for i, s in enumerate(stmts):
+        if not top and has_return(s):
+            raise Untranslatable("return inside a block that is not in tail position")
         if s[0] == "return":
             if s[1] is None:
                 raise Untranslatable("return without value")
-            return ev(s[1], env, cx)
+            return finish(ev(s[1], env, cx), env, cx)
         if s[0] == "expr" and s[1][0] == "if" and returns(s[1][2]) and s[1][3] is None:
             c = ev(s[1][1], env, cx)
-            tv = eval_block(s[1][2][1], None, dict(env), cx)
-            rest = eval_block(stmts[i + 1:], tail, env, cx)
+            tv = eval_block(s[1][2][1], None, dict(env), cx, top=True)
+            rest = eval_block(stmts[i + 1:], tail, env, cx, top=True)
             return ite(c, tv, rest)
         if s[0] == "expr" and s[1][0] == "iflet" and returns(s[1][3]) and s[1][4] is None:
             rest_block = ("block", stmts[i + 1:], tail)
-            return ev_match(("match", s[1][2], [(s[1][1], None, s[1][3]), (("pwild",), None, rest_block)]), env, cx)
+            return ev_match(("match", s[1][2], [(s[1][1], None, s[1][3]), (("pwild",), None, rest_block)]), env, cx, body_ev=ev_tail)
+        if s[0] == "for" and has_return(s[3]):
+            exec_for(s, env, cx, ret=True)
+            d = env.pop("__done")
+            rest = eval_block(stmts[i + 1:], tail, env, cx, top=True)
+            r = cx.fresh("r")
+            return V("match %s with | some %s => %s | none => %s" % (d.s, r, r, rest.s), rest.ty)
         exec_stmt(s, env, cx)
     if tail is None:
         raise Untranslatable("block without value")
+    if top:
+        return ev_tail(tail, env, cx)
+    if has_return(tail):
+        raise Untranslatable("return inside a block that is not in tail position")
     return ev(tail, env, cx)
 
 
@@ -1164,10 +1354,37 @@ def translate_bdd_fn(src, rust):
     if len(set(names)) != len(names):
         raise Untranslatable("duplicate parameter names")
     cx = Ctx(sem=sem, ops="B" if sem == TT else None, self_v=V("p", PTR))
+    cx.src, cx.cur_fn = src, rust
+    cx.mut_params = [rn for (rn, ty), kd in zip(params, kinds) if ty.startswith("&mut")]
+    for (rn, ty), kd in zip(params, kinds):
+        if ty.startswith("&mut") and kd != PM:
+            raise Untranslatable("`&mut` parameter of type " + ty)
+    CUR_MUT_PARAMS[:] = cx.mut_params
+    cx.ret_ty = tup(sp["ret"], *[PM for _ in cx.mut_params]) if cx.mut_params else sp["ret"]
     env = {}
     for (rn, _), ln, kd in zip(params, names, kinds):
         env[rn] = V(ln, kd)
     ast = parse_body(body)
+
+    def outcome(text):
+        """translated text, or DIFFERS when the body was read but uses state the model has no slot for"""
+        if cx.memo_dirty:
+            cx.new_state.append("the scratch memo of `bdd_fold_h` is left uncleared when the function returns")
+        why = []
+        if cx.mut_params:
+            why.append("parameter `%s: &mut PartialModel` is mutated in place and outlives the call (the model passes the assignment by value)"
+                       % ", ".join(cx.mut_params))
+        for w in cx.new_state:
+            if w not in why:
+                why.append(w)
+        if why:
+            extra = ""
+            if cx.mut_params and not cx.new_state:
+                extra = "-- the reading of the source with the state threaded (result, final state of the `&mut` parameters):\n" + text
+            raise Differs("; ".join(why), extra)
+        return text
+
+    lname = sp["lean"] + ("Stateful" if cx.mut_params else "")
     wty = {RAT: "Rat", EU: "_root_.Sem.EU", TT: "α"}[sem]
 
     def binder(o):
@@ -1177,12 +1394,12 @@ def translate_bdd_fn(src, rust):
         return "(%s : %s)" % (names[o], "_root_.Spec.Weights " + wty if kd == WMC else cx.lean_ty(kd))
 
     prefix = "{α : Type} (B : _root_.Optim.BBOps α) " if sp["generic"] else ""
-    ret = cx.lean_ty(sp["ret"])
+    ret = cx.lean_ty(cx.ret_ty)
     if not rust.endswith("_h"):
-        val = eval_block(ast[1], ast[2], env, cx)
-        if not same_ty(val.ty, sp["ret"]):
+        val = eval_block(ast[1], ast[2], env, cx, top=True)
+        if not same_ty(val.ty, cx.ret_ty):
             raise Untranslatable("result type %r" % (val.ty,))
-        return "def %s %s%s : %s :=\n  %s\n" % (sp["lean"], prefix, " ".join(binder(o) for o in sp["order"]), ret, val.s)
+        return outcome("def %s %s%s : %s :=\n  %s\n" % (lname, prefix, " ".join(binder(o) for o in sp["order"]), ret, val.s))
     # recursion over the slice parameter: `match slice { [] => …, [x, rest @ ..] => … }`
     if ast[1] or ast[2] is None or ast[2][0] != "match":
         raise Untranslatable("body is not a single match on the slice")
@@ -1191,43 +1408,53 @@ def translate_bdd_fn(src, rust):
     slice_pos = sp["kinds"].index(lst(NAT))
     if scrut != ("var", params[slice_pos][0]):
         raise Untranslatable("match scrutinee is not the slice parameter")
-    if len(m[2]) != 2:
-        raise Untranslatable("expected the two arms [] and [x, rest @ ..]")
     fixed = [o for o in sp["order"] if o == "self" or kinds[o] == WMC]
     moving = [o for o in sp["order"] if o not in fixed]
-    arms = {}
+    arms = []
     for pat, guard, abody in m[2]:
+        # slice patterns `[p1, …, pk]` and `[p1, …, pk, rest @ ..]` (elements: a name or `_`), equations in source order;
+        # Lean checks that they are exhaustive and that the recursion is structural (elaboration guard otherwise)
         if guard is not None or pat[0] != "pslice":
             raise Untranslatable("arm of the slice match")
         sub = dict(env)
-        if not pat[1]:
-            key, lp = "nil", "[]"
-            sub[params[slice_pos][0]] = V("([] : List Nat)", lst(NAT))
-        elif len(pat[1]) == 2 and pat[1][0][0] in ("pvar", "pwild") and pat[1][1][0] == "prest":
-            key = "cons"
-            hd = lean_name(pat[1][0][1]) + "_hd" if pat[1][0][0] == "pvar" else "_"
-            tl = lean_name(pat[1][1][1]) + "_tl" if pat[1][1][1] else "_"
-            if pat[1][0][0] == "pvar":
-                sub[pat[1][0][1]] = V(hd, NAT)
-            if pat[1][1][1]:
-                sub[pat[1][1][1]] = V(tl, lst(NAT))
-            lp = "%s :: %s" % (hd, tl)
-            if hd == "_" or tl == "_":
-                del sub[params[slice_pos][0]]
+        elems = list(pat[1])
+        rest = None
+        if elems and elems[-1][0] == "prest":
+            rest = elems.pop()
+        lean_elems, whole_ok = [], True
+        for q in elems:
+            while q[0] == "pref":
+                q = q[1]
+            if q[0] == "pvar":
+                nm = lean_name(q[1]) + "_hd"
+                sub[q[1]] = V(nm, NAT)
+                lean_elems.append(nm)
+            elif q[0] == "pwild":
+                lean_elems.append("_")
+                whole_ok = False
             else:
-                sub[params[slice_pos][0]] = V("(%s :: %s)" % (hd, tl), lst(NAT))
+                raise Untranslatable("slice pattern")
+        if rest is None:
+            lp = "[" + ", ".join(lean_elems) + "]"
+            whole = "([%s] : List Nat)" % ", ".join(lean_elems)
         else:
-            raise Untranslatable("slice pattern")
-        if key in arms:
-            raise Untranslatable("duplicate slice arm")
-        val = ev(abody, sub, cx)
-        if not same_ty(val.ty, sp["ret"]):
+            tl = lean_name(rest[1]) + "_tl" if rest[1] else "_"
+            if rest[1]:
+                sub[rest[1]] = V(tl, lst(NAT))
+            else:
+                whole_ok = False
+            lp = " :: ".join(lean_elems + [tl])
+            whole = "(" + lp + ")"
+        if whole_ok:
+            sub[params[slice_pos][0]] = V(whole, lst(NAT))
+        else:
+            del sub[params[slice_pos][0]]
+        val = ev_tail(abody, sub, cx)
+        if not same_ty(val.ty, cx.ret_ty):
             raise Untranslatable("result type %r" % (val.ty,))
-        arms[key] = "  | %s => %s" % (", ".join(lp if o == slice_pos else names[o] for o in moving), val.s)
-    if set(arms) != {"nil", "cons"}:
-        raise Untranslatable("slice arms")
+        arms.append("  | %s => %s" % (", ".join(lp if o == slice_pos else names[o] for o in moving), val.s))
     sig = " → ".join(cx.lean_ty(kinds[o]) for o in moving)
-    return "def %s %s%s : %s → %s\n%s\n%s\n" % (sp["lean"], prefix, " ".join(binder(o) for o in fixed), sig, ret, arms["nil"], arms["cons"])
+    return outcome("def %s %s%s : %s → %s\n%s\n" % (lname, prefix, " ".join(binder(o) for o in fixed), sig, ret, "\n".join(arms)))
 
 
 # ------------------------------------------------------------------ FiniteField::mul
@@ -1237,9 +1464,10 @@ def translate_ff_mul(src):
     if [n for n, _ in params][:1] != ["self"] or len(params) != 2 or "FiniteField" not in params[1][1] and params[1][1] != "Self":
         raise Untranslatable("signature of mul")
     cx = Ctx(consts={"P": V("P", NAT)}, self_v=V("a", FF), loop_name="ffMulLoop")
+    cx.ret_ty = FF
     env = {params[1][0]: V("b", FF)}
     ast = parse_body(body)
-    val = eval_block(ast[1], ast[2], env, cx)
+    val = eval_block(ast[1], ast[2], env, cx, top=True)
     if val.ty != FF:
         raise Untranslatable("result type %r" % (val.ty,))
     loop = cx.aux[0] if cx.aux else ("-- the source of `mul` has no `while` loop: `ffMulLoop` is the model's loop, `ffMul` is translated\n" + FF_LOOP_ALIAS)
@@ -1265,8 +1493,9 @@ def translate_poly(src, rust):
         raise Untranslatable("signature of " + rust)
     cx = Ctx(sem=TT, ops="S", consts={"MAX_COEFFS": V("maxCoeffs", NAT)}, self_v=V("p", POLY) if binary else None)
     env = {params[1][0]: V("q", POLY)} if binary else {}
+    cx.ret_ty = POLY
     ast = parse_body(body)
-    val = eval_block(ast[1], ast[2], env, cx)
+    val = eval_block(ast[1], ast[2], env, cx, top=True)
     if val.ty != POLY:
         raise Untranslatable("result type %r" % (val.ty,))
     lean = {"zero": "polyZero", "one": "polyOne", "add": "polyAdd", "mul": "polyMul"}[rust]
@@ -1329,8 +1558,9 @@ def translate_sem_op(src, tname, op):
         raise Untranslatable("signature of " + op)
     cx = Ctx(self_v=V("a", carrier), self_type=self_type)
     env = {params[1][0]: V("b", carrier)}
+    cx.ret_ty = carrier
     ast = parse_body(body)
-    val = eval_block(ast[1], ast[2], env, cx)
+    val = eval_block(ast[1], ast[2], env, cx, top=True)
     if val.ty != carrier:
         raise Untranslatable("result type %r" % (val.ty,))
     ty = cx.lean_ty(carrier)
@@ -1381,6 +1611,11 @@ def main():
         try:
             chunks.append((key, fn()))
             status[key] = ok
+        except Differs as e:
+            # the body was read; it keeps / takes state the model has no counterpart for: alias (the build stays green),
+            # the orchestrator treats the status like a failed tie
+            chunks.append((key, "-- DIFFERS (new state) for %s: %s\n" % (label, str(e).replace("\n", " ")) + alias_text + e.extra))
+            status[key] = "DIFFERS (new state): %s" % e
         except CAUGHT as e:
             chunks.append((key, note(label, e) + alias_text))
             status[key] = UNTR % (str(e) or type(e).__name__)
